@@ -8,7 +8,7 @@ O=/tmp/mut/out$R
 case "$1" in
 verify)
   P=$2; mkdir -p /tmp/mut/v$R
-  for v in b1 b2 q1 q2 q3; do
+  for v in b1 b2 b3 q1 q2 q3; do
     [ -d $O/$P/$v ] && /verif/tools/verify_seed2.sh $O/$P/$v /tmp/mut/$P
   done > /tmp/mut/v$R/$P.txt 2>&1
   cat /tmp/mut/v$R/$P.txt ;;
